@@ -35,6 +35,10 @@ def hostile_name(rng):
 
 def hostile_id(rng, mtype):
     k = rng.random()
+    if k < 0.12:
+        # further ':' inside the name are ordinary characters of ONE directory name, whatever stands between them
+        segs = [rng.choice(['..', '..', '.', '', 'x', 'team', SB.lstrip('/') + '/canary/c']) for _ in range(rng.choice([2, 3, 4]))]
+        return mtype + ':' + ':'.join(segs) + rng.choice(['', ':x', ':esc'])
     pre = rng.choice([mtype, mtype, 'skill', 'x', '', ':', 'a:b'])
     if k < 0.8: return pre + ':' + hostile_name(rng)
     if k < 0.9: return hostile_name(rng).replace(SB, 'S')                         # no ':' at all -> sanitised
@@ -268,6 +272,10 @@ def corpus_cases():
          base([mod('prompt:a b', 'prompt', [('a.md', b'hi\n')]), mod('prompt:a_b', 'prompt', [('..\\x.md', b'hi\n')])]), 'reject'),
         ('overlay file ..\\..\\..\\canary\\esc.md is name-checked like the module\'s own files',
          base([mod('skill:ok', 'skill', sk)], overlays=[['skill:ok', 'global', [['..\\..\\..\\..\\canary\\esc.md', 'E']]]]), 'reject'),
+        ('skill:..:..:..:..:canary_x is ONE directory name (claude_code skills on)',
+         base([mod('skill:..:..:..:..:canary_x', 'skill', sk)], targets={'claude_code': {'scope': 'both', 'options': {'write_user_skills': True, 'write_repo_skills': True}}}), 'ok'),
+        ('skill::<abs> is ONE directory name (claude_code skills on)',
+         base([mod('skill::' + SB.lstrip('/') + '/canary/abs_skill', 'skill', sk)], targets={'claude_code': {'scope': 'both', 'options': {'write_user_skills': True, 'write_repo_skills': True}}}), 'okorreject'),
         ('F13 codex_home=<project>//', base([mod('instructions:i', 'instructions', [('AGENTS.md', b'hi\n')])],
                                             targets={'codex': {'scope': 'both', 'options': {'codex_home': SB + '/project//'}}}), 'ok'),
     ]
@@ -316,6 +324,8 @@ def run(ctx):
         ctx.count('corpus', key=name, tags=['corpus'])
         if expect == 'reject' and not (p[0] == 'err' and p[1] == 'E_CONFIG_INVALID'):
             ctx.violation('repaired defect is back: %s is no longer refused with E_CONFIG_INVALID (plan: %r)' % (name, p[:2]), rec)
+        if expect == 'okorreject' and p[0] not in ('ok', 'err'):
+            ctx.violation('%s: neither rendered nor refused (%r)' % (name, p[:2]), rec)
         if expect == 'ok' and p[0] != 'ok':
             ctx.violation('%s: a safe configuration is refused (%r)' % (name, p[:2]), rec)
         for b in out['bad']:
